@@ -10,7 +10,7 @@ import struct
 
 from hypothesis import strategies as st
 
-from pbt.core import Violation, hyp_run, use_repo
+from pbt.core import Violation, fuzz_run, hyp_run, use_repo
 
 use_repo()
 from electrumx.lib.tx import Deserializer, read_tx          # noqa: E402
@@ -346,20 +346,185 @@ def block_body(ctx, truncate_file=False):
     return body
 
 
+# ---- (c) coverage-guided: arbitrary bytes against an independent reference parser ---------------
+
+class _Short(Exception):
+    pass
+
+
+def ref_parse(b):
+    '''The harness's own reader of the wire format (bytes slicing and int.from_bytes only).
+    Returns (fields, end, biggest declared length) or raises _Short(biggest declared length) when
+    the bytes end before the transaction does — the format has no other way to be invalid.'''
+    pos = 0
+    biggest = 0
+
+    def take(n):
+        nonlocal pos
+        if pos + n > len(b):
+            raise _Short(biggest)
+        out = b[pos:pos + n]
+        pos += n
+        return out
+
+    def vint():
+        nonlocal biggest
+        first = take(1)[0]
+        if first < 253:
+            n = first
+        else:
+            n = int.from_bytes(take({253: 2, 254: 4, 255: 8}[first]), 'little')
+        biggest = max(biggest, n)
+        return n
+
+    version = int.from_bytes(take(4), 'little', signed=True)
+    ins = []
+    for _ in range(vint()):
+        prev = take(32)
+        idx = int.from_bytes(take(4), 'little')
+        script = take(vint())
+        ins.append((prev, idx, script, int.from_bytes(take(4), 'little')))
+    outs = []
+    for _ in range(vint()):
+        value = int.from_bytes(take(8), 'little', signed=True)
+        outs.append((value, take(vint())))
+    locktime = int.from_bytes(take(4), 'little')
+    return (version, ins, outs, locktime), pos, biggest
+
+
+REALISTIC = 1 << 32         # no block (hence no tx, script or count) reaches 4 GiB
+
+
+def fuzz_tx_one(ctx):
+    def one(data):
+        data = bytes(data)
+        try:
+            want, end, biggest = ref_parse(data)
+            short = False
+        except _Short as e:
+            want, end, biggest, short = None, None, e.args[0], True
+        try:
+            tx, cursor = read_tx(memoryview(data), 0)
+            got_exc = None
+        except Exception as e:
+            tx, cursor, got_exc = None, None, e
+        classes = ['fuzz_tx']
+        if short:
+            classes.append('fuzz_tx.incomplete')
+        else:
+            classes.append('fuzz_tx.complete')
+            if end < len(data):
+                classes.append('fuzz_tx.complete_with_trailing_bytes')
+            if biggest >= 253:
+                classes.append('fuzz_tx.complete_multibyte_varint')
+            if want[1] and want[2]:
+                classes.append('fuzz_tx.complete_with_inputs_and_outputs')
+        ctx.record(case=data.hex(), nontrivial=not short and bool(want[1] or want[2]),
+                   classes=classes,
+                   sample={'check': 'c13.fuzz_tx', 'hex': data.hex()[:400], 'bytes': len(data),
+                           'n_in': len(want[1]) if want else None,
+                           'n_out': len(want[2]) if want else None})
+        if short:
+            if got_exc is None:
+                raise Violation(f'{len(data)} bytes that end before the transaction does were '
+                                f'parsed as a transaction ending at {cursor}', 'fuzz_phantom')
+            if biggest < REALISTIC and not isinstance(got_exc, OK_EXC):
+                raise Violation(f'an incomplete transaction (largest declared length {biggest}) '
+                                f'raised {type(got_exc).__name__}, which iter_txs does not catch',
+                                'fuzz_trunc_exc')
+            return
+        if got_exc is not None:
+            raise Violation(f'a complete transaction of {end} bytes raised {got_exc!r}',
+                            'fuzz_parse')
+        if cursor != end:
+            raise Violation(f'cursor {cursor} after a transaction of {end} bytes', 'fuzz_cursor')
+        got = (tx.version,
+               [(bytes(i.prev_hash), i.prev_idx, bytes(i.script), i.sequence) for i in tx.inputs],
+               [(o.value, bytes(o.pk_script)) for o in tx.outputs], tx.locktime)
+        if got != want:
+            raise Violation('parsed fields differ from the reference reading', 'fuzz_fields')
+        d = Deserializer(data)
+        tx2, h = d.read_tx_and_hash()
+        if h != dsha(data[:end]) or d.cursor != end:
+            raise Violation('hash is not the double SHA-256 of the bytes consumed', 'fuzz_hash')
+        again = tx.serialize()
+        if ref_parse(again)[0] != want:
+            raise Violation('serialize() of the parsed transaction reads back differently',
+                            'fuzz_roundtrip')
+        canonical = all(len(varint(n)) == w for n, w in _varint_widths(data, end))
+        if canonical and again != data[:end]:
+            raise Violation('serialize(parse(raw)) != raw for a canonically encoded transaction',
+                            'fuzz_roundtrip')
+    return one
+
+
+def _varint_widths(b, end):
+    '''(value, encoded width) of every varint of the complete transaction b[:end].'''
+    out, pos = [], 4
+
+    def vint():
+        nonlocal pos
+        first = b[pos]
+        width = {253: 3, 254: 5, 255: 9}.get(first, 1)
+        n = first if width == 1 else int.from_bytes(b[pos + 1:pos + width], 'little')
+        pos += width
+        out.append((n, width))
+        return n
+
+    for _ in range(vint()):
+        pos += 36
+        n = vint()          # not "pos += vint()": vint moves pos itself
+        pos += n + 4
+    for _ in range(vint()):
+        pos += 8
+        n = vint()
+        pos += n
+    return out
+
+
+def fuzz_tx_seeds():
+    descs = [
+        {'v': 1, 'lt': 0, 'ins': [[0, 0xffffffff, 4, 0xffffffff]], 'outs': [[50 * 10 ** 8, 25]]},
+        {'v': 2, 'lt': 5, 'ins': [[3, 1, 107, 0], [4, 0, 0, 7]], 'outs': [[1, 25], [0, 0]]},
+        {'v': -1, 'lt': 0xffffffff, 'ins': [], 'outs': []},
+        {'v': 1, 'lt': 0, 'ins': [[5, 2, 253, 1]], 'outs': [[7, 300]]},
+    ]
+    return [build_tx(d)[0] for d in descs]
+
+
+FUZZ_TARGETS = {
+    'c13.fuzz_tx': {'kind': 'bytes', 'make': fuzz_tx_one, 'seeds': fuzz_tx_seeds, 'max_len': 2048},
+    'c13.fuzz_block': {'kind': 'hyp', 'strategy': BLOCK_CASE, 'make': block_body},
+}
+
+
 def run(ctx):
     hyp_run(ctx, 'c13.tx', st.tuples(tx_desc(), st.integers(0, 10 ** 6)).map(list),
             tx_body(ctx), ctx.pick(120, 20000), frac=0.3)
     hyp_run(ctx, 'c13.block', BLOCK_CASE, block_body(ctx), ctx.pick(250, 20000), frac=0.75)
-    hyp_run(ctx, 'c13.block_truncated', BLOCK_CASE, block_body(ctx, True), ctx.pick(60, 5000))
+    hyp_run(ctx, 'c13.block_truncated', BLOCK_CASE, block_body(ctx, True), ctx.pick(60, 5000),
+            frac=0.5)
+    # coverage-guided (Atheris/libFuzzer): raw bytes on even shards' halves, the block generator
+    # steered by coverage on the others
+    if ctx.shard % 4 == 3:
+        fuzz_run(ctx, 'c13.fuzz_block', ctx.pick(1500, 400000))
+    else:
+        fuzz_run(ctx, 'c13.fuzz_tx', ctx.pick(40000, 20000000))
 
 
 def replay(ctx, check, case):
     if check == 'c13.tx':
         msg, sig, _ = check_tx(case[0], case[1])
-    elif check == 'c13.block':
+    elif check in ('c13.block', 'c13.fuzz_block'):
         msg, sig, info = run_block_case(ctx.scratch, case)
     elif check == 'c13.block_truncated':
         msg, sig, info = run_block_case(ctx.scratch, case, True)
+    elif check == 'c13.fuzz_tx':
+        try:
+            fuzz_tx_one(ctx)(bytes.fromhex(case['hex']))
+        except Violation as v:
+            return v.message, v.sig
+        return None
     else:
         raise AssertionError(check)
     return (msg, sig) if msg else None
